@@ -157,6 +157,38 @@ def genRun (bad : List Name) (c : Content) (L : Lang) (free : List Name) (t : Ra
 def setPars (c : Content) (free : List Name) (ps : List Rat) : Content :=
   { c with pars := (free.zip ps).foldl (fun m kv => omInsert m kv.1 (Val.plain kv.2)) c.pars }
 
+/-- Bool-valued comparison of results (for `decide` on closed witnesses) -/
+def resEq : Except Err (List Rat) → Except Err (List Rat) → Bool
+  | .ok a, .ok b => a == b
+  | .error a, .error b => a == b
+  | _, _ => false
+
+/-! ### hypotheses of the partial theorem (all decidable) -/
+
+def noIA (m : List (Name × Val)) : Bool :=
+  m.all fun kv => match kv.2 with | .plain _ => true | .ia _ => false
+
+def numCoefs (c : Content) : Bool :=
+  c.rxns.all fun kv => kv.2.stoich.all fun vc => match vc.2 with | .num _ => true | .dyn _ => false
+
+/-- every variable occurs in some reaction's stoichiometry, and only variables do -/
+def allVarsHaveEq (c : Content) : Bool :=
+  (omKeys c.vars).all fun v => (omKeys (diffEqs c.rxns)).contains v
+def stoichOnVars (c : Content) : Bool :=
+  (omKeys (diffEqs c.rxns)).all fun v => (omKeys c.vars).contains v
+
+def nodupB : List Name → Bool
+  | [] => true
+  | a :: as => !as.contains a && nodupB as
+
+/-- what `Model._insert_id` guarantees (one namespace for all components, `time` reserved) plus: no
+    component is called like a generated derivative name `d<x>dt`, and a reaction's stoichiometry (a dict)
+    has each compound once -/
+def wellNamed (c : Content) : Bool :=
+  nodupB ("time" :: (omKeys c.vars ++ omKeys c.pars ++ omKeys c.derived ++ omKeys c.rxns
+            ++ (omKeys c.vars).map dName))
+  && c.rxns.all fun kv => nodupB (omKeys kv.2.stoich)
+
 def Rhs.reads : Rhs → List Name
   | .const _ => []
   | .app f => f.args
